@@ -204,7 +204,6 @@ func conditionTable(c *an.Ctx, s *sched, rule string) {
 		}
 		return "other:" + an.Prov(v)
 	}
-	stop := l.StopSet()
 	var gateBlock *ssa.BasicBlock
 	if s.gateCall != nil {
 		gateBlock = s.gateCall.Block()
@@ -221,7 +220,8 @@ func conditionTable(c *an.Ctx, s *sched, rule string) {
 	var table []string
 	for _, row := range rows {
 		row := row
-		ex := &an.Explorer{P: c.P, Stop: stop, NoReturn: noReturn}
+		ex := &an.Explorer{P: c.P, NoReturn: noReturn}
+		l.Bound(ex)
 		ex.Atom = func(v ssa.Value) (an.AVal, bool) {
 			if e, ok := v.(*ssa.Extract); ok && e.Tuple == ssa.Value(condCall) {
 				if e.Index == 0 {
@@ -340,7 +340,7 @@ func errorReport(c *an.Ctx, s *sched, rule string) {
 	}
 	okLast := true
 	for _, r := range an.Returns(last) {
-		ap := an.AccessPath(r.Results[0])
+		ap := an.AccessPath(an.RetVal(r, 0))
 		if ap.LastField() != "error" || !an.SameValue(ap.Base, last.Params[0]) {
 			okLast = false
 		}
@@ -352,7 +352,7 @@ func errorReport(c *an.Ctx, s *sched, rule string) {
 	for _, r := range an.Returns(s.schedule) {
 		nret++
 		good := false
-		for _, v := range an.ResolveAll(r.Results[0]) {
+		for _, v := range an.Sources(an.RetVal(r, 0)) {
 			if call, ok := v.(*ssa.Call); ok {
 				for _, callee := range c.P.Callees(&call.Call) {
 					if callee == last && an.SameValue(call.Call.Args[0], s.schedule.Params[1]) {
@@ -367,7 +367,7 @@ func errorReport(c *an.Ctx, s *sched, rule string) {
 		}
 		if !good {
 			okSched = false
-			c.Bad(rule, an.Short(s.schedule)+":return", r.Pos(), "Schedule returns %s instead of the graph's recorded error", an.Prov(r.Results[0]))
+			c.Bad(rule, an.Short(s.schedule)+":return", r.Pos(), "Schedule returns %s instead of the graph's recorded error", an.Prov(an.RetVal(r, 0)))
 		}
 	}
 	if okSched && nret > 0 {
@@ -381,7 +381,7 @@ func errorReport(c *an.Ctx, s *sched, rule string) {
 		}
 		returned := false
 		for _, r := range an.Returns(s.runStage) {
-			for _, v := range an.ResolveAll(r.Results[0]) {
+			for _, v := range an.Sources(an.RetVal(r, 0)) {
 				if v == ssa.Value(call) {
 					returned = true
 				}
@@ -397,7 +397,7 @@ func errorReport(c *an.Ctx, s *sched, rule string) {
 		}
 		returned := false
 		for _, r := range an.Returns(s.runStage) {
-			for _, v := range an.ResolveAll(r.Results[0]) {
+			for _, v := range an.Sources(an.RetVal(r, 0)) {
 				if v == ssa.Value(call) {
 					returned = true
 				}
@@ -644,12 +644,12 @@ func doneTest(c *an.Ctx, s *sched, rule string) {
 		return
 	}
 	_, vals := loop.RangeKeyValue()
-	stop := loop.StopSet()
 	W, R := s.status["Waiting"], s.status["Running"]
 	var table []string
 	for _, stv := range s.statusDomain() {
 		stv := stv
-		ex := &an.Explorer{P: c.P, Stop: stop, NoReturn: noReturn}
+		ex := &an.Explorer{P: c.P, NoReturn: noReturn}
+		loop.Bound(ex)
 		ex.Atom = func(v ssa.Value) (an.AVal, bool) {
 			if call, ok := v.(*ssa.Call); ok {
 				if cc, ok := an.IsCallTo(call, fnReadStatus); ok {
@@ -682,7 +682,7 @@ func doneTest(c *an.Ctx, s *sched, rule string) {
 	// after the loop the done test returns true; it ranges over all nodes of its graph parameter
 	for _, r := range an.Returns(d) {
 		if x := loop.NormalExit(); x != nil && x.Dominates(r.Block()) {
-			if k, ok := r.Results[0].(*ssa.Const); !ok || k.Value == nil || k.Value.ExactString() != "true" {
+			if k, ok := an.RetVal(r, 0).(*ssa.Const); !ok || k.Value == nil || k.Value.ExactString() != "true" {
 				c.Bad(rule, an.Short(d)+":final", r.Pos(), "done test does not return true when no stage is unfinished")
 			} else {
 				c.OK(rule, an.Short(d)+":final", r.Pos(), "returns true when the loop found no unfinished stage")
